@@ -1,4 +1,6 @@
 """C04 — standard function blocks follow the IEC timing diagrams on every trace."""
+import sys
+
 import vlib
 
 # The recorded witness of the known finding (also in known_findings.json and, as a `decide`d theorem,
@@ -27,7 +29,7 @@ def iec_tp(trace, pt):
 
 def extra(ctx):
     """Replays the recorded witness of the known finding on the implementation's answers (the harness
-    always emits it as cases 900000001 = pub struct, 900000002 = ST program) and classifies it."""
+    always emits it as cases `w-tp-struct` = pub struct, `w-tp-program` = ST program) and classifies it."""
     res = {"known": [], "oracle_failures": [], "failures": [], "coverage": {}}
     expected = iec_tp(TP_WITNESS, TP_WITNESS_PT)
     findings = {f["id"]: f for f in vlib.known_findings("C04")}
@@ -70,7 +72,9 @@ SPEC = {
     "lean_modules": ["TrustVerif.Props.C04"],
     "tiers": {
         "quick": {"cases": 2500, "extra": {"steps": 40}},
-        "thorough": {"cases": 100000, "extra": {"steps": 48}},
+        # the thorough tier runs THOROUGH_CHUNKS chunks of this size with derived seeds (see `run`), so
+        # that the cases file of one chunk stays small enough to diff in memory: 5 x 20 000 = 100 000 cases
+        "thorough": {"cases": 20000, "extra": {"steps": 48}},
     },
     # The compared observables are the FB outputs after every call (and the stored outputs of every
     # instance after every cycle) — exactly what the property speaks about — and the model is proved
@@ -108,6 +112,80 @@ SPEC = {
         "counter inputs PV lie in the range of the counter's integer kind (guaranteed by the typed Value)",
     ],
 }
+
+THOROUGH_CHUNKS = 5
+
+
+def _check():
+    import check  # the orchestrator (importable: main() is guarded)
+    return check
+
+
+def run(tier, seed):
+    """quick: the standard pipeline.  thorough: the standard pipeline on THOROUGH_CHUNKS chunks with
+    derived seeds, merged into one decision and one evidence file."""
+    check = _check()
+    mod = sys.modules[__name__]
+    if tier != "thorough":
+        r = check.standard_run(mod, tier, seed)
+        if not r["disagreements"] and not r["oracle_failures"] and r["failures"] and r["cases"]:
+            r2 = check.standard_run(mod, tier, seed + 1, search_factor=SPEC.get("search_factor", 10))
+            r["disagreements"], r["oracle_failures"] = r2["disagreements"], r2["oracle_failures"]
+            r["cases"] += r2["cases"]
+            r["wall"] += r2["wall"]
+    else:
+        r = None
+        for k in range(THOROUGH_CHUNKS):
+            rk = check.standard_run(mod, tier, (seed * 1000003 + k) & 0xFFFFFFFFFFFFFFFF)
+            if r is None:
+                r = rk
+                r["distinct"] = rk["distinct_nontrivial"]
+            else:
+                for key in ("failures", "disagreements", "oracle_failures"):
+                    r[key] += rk[key]
+                for k2 in rk["known"]:
+                    if k2 not in r["known"]:
+                        r["known"].append(k2)
+                r["failures"] = sorted(set(r["failures"]))
+                r["cases"] += rk["cases"]
+                r["ops"] = r.get("ops", 0) + rk.get("ops", 0)
+                r["distinct_nontrivial"] += rk["distinct_nontrivial"]
+                r["wall"] += rk["wall"]
+                for kk, vv in rk["stats"].items():
+                    r["stats"][kk] = r["stats"].get(kk, 0) + vv
+            if rk["disagreements"] or rk["oracle_failures"]:
+                break
+        r["extra"]["chunks"] = k + 1
+    code = check.decide(mod, r, tier, seed)
+    print(f"C04 {tier} seed={seed}: proofs {r['proof']['discharged']}/{r['proof']['obligations']} "
+          f"cases={r['cases']} nontrivial={r['distinct_nontrivial']} disagreements={len(r['disagreements'])} "
+          f"failures={len(r['failures'])} wall={r['wall']:.1f}s -> exit {code}", flush=True)
+    return code
+
+
+def replay(obj):
+    """Re-runs exactly the recorded case (generated cases replay by (tier, seed, case number); the recorded
+    witness is re-evaluated by `extra`)."""
+    check = _check()
+    mod = sys.modules[__name__]
+    if "seed" not in obj or "tier" not in obj:
+        import json
+        print(json.dumps(obj, indent=1))
+        print("this replay names a broken obligation, not an input; re-run the check itself")
+        return 1
+    only = obj.get("case")
+    only = int(only) if str(only).isdigit() else 0
+    r = check.standard_run(mod, obj["tier"], obj["seed"], only=only)
+    for d in r["disagreements"]:
+        print(f"case {d['case']} op {d['op_index']}: {d['op']}\n  impl : {d['impl']}\n  model: {d['model']}")
+    for d in r["oracle_failures"]:
+        print(f"witness [{d['route']}] implementation {d['implementation']}\n  IEC {d['iec']}  ({d['signature']})")
+    for k in r["known"]:
+        print("KNOWN-FINDING: property=C04", k)
+    bad = r["disagreements"] or r["oracle_failures"] or r["failures"]
+    print("replay:", "still fails" if bad else "passes")
+    return 1 if bad else 0
+
 
 MANIFEST = {
     "technique": "Lean 4 trace-refinement proofs (state machines of the Rust code = history-level IEC definitions on every "
